@@ -22,7 +22,7 @@ def make_run(cfg, answer, **kw):
                      itersLimit=cfg.get("itersLimit", 10 ** 6), answer=answer, density=cfg.get("density"),
                      refine=cfg.get("refine", False), fresh_holder=cfg.get("holder") == "fresh",
                      other=tuple(cfg["other"]) if cfg.get("other") else None, int_bounds=cfg.get("box") == "Z",
-                     constraints=int(cfg.get("constraints", 0)), probe=bool(cfg.get("probe")),
+                     constraints=int(cfg.get("constraints", 0)), discrete=int(cfg.get("discrete", 0)), probe=bool(cfg.get("probe")),
                      start_point=bool(cfg.get("startPoint")), **kw)
 
 
